@@ -131,6 +131,22 @@ def main():
                 elif worst2 > 1 + 8 * EPS:
                     print(json.dumps({"kind": "lu", "op": "decc", "n": n, "ok": False, "finding_key": "c16-complex-multiplier", "why": "complex multiplier of modulus %.6f exceeds 1 (pivoting by |re| + |im|)" % float(worst2) ** 0.5, "input": o[:300]}))
                 nchk += 1
+            elif iplen == n and rw[0] == "err":
+                # a rejected complex matrix with small Gaussian-integer entries: no rounding can produce an exactly zero pivot
+                # of a nonsingular matrix of this kind, so exact nonsingularity makes the rejection wrong
+                ar, ai = vec(w[3]), vec(w[4])
+                if n <= 6 and all(x.denominator == 1 and abs(x) <= 2 for x in ar + ai):
+                    big = [[F(0)] * (2 * n) for _ in range(2 * n)]
+                    for i in range(2 * n):
+                        for j in range(2 * n):
+                            ii, jj = i % n, j % n
+                            if i < n and j < n or i >= n and j >= n: big[i][j] = ar[ii * n + jj]
+                            elif i < n: big[i][j] = -ai[ii * n + jj]
+                            else: big[i][j] = ai[ii * n + jj]
+                    bad = det(big, 2 * n) != 0
+                    print(json.dumps({"kind": "lu", "op": "decc", "n": n, "ok": not bad, "finding_key": "c16-singular" if bad else "",
+                                      "why": ("nonsingular complex matrix with small integer parts rejected: %s" % r[:40]) if bad else "", "input": o[:300] if bad else ""}))
+                    nchk += 1
             elif iplen != n and rw[:2] != ["err", "PivotSizeMismatch"]:
                 print(json.dumps({"kind": "lu", "op": "decc", "n": n, "ok": False, "why": "wrong pivot length not rejected", "finding_key": "c16-shape"}))
         elif w[0] == "solc" and cur is not None and cur[0] == "c" and not (finite(rw[1]) and finite(rw[2])):
